@@ -38,6 +38,8 @@ pub struct CaseOpts {
     pub ignore_classes: Vec<FailClass>,
     /// O4: depth-first order / no repetition of decision paths (hook H1)
     pub o4: bool,
+    /// validate the thread_local! / lazy_static! life cycle notes of every iteration
+    pub tls_lazy: bool,
     pub walks0: usize,
     pub walk_cap: usize,
     /// attribute violations to known findings through deviations
@@ -54,6 +56,7 @@ impl Default for CaseOpts {
             internal_is_violation: true,
             ignore_classes: vec![],
             o4: false,
+            tls_lazy: false,
             walks0: 64,
             walk_cap: 512,
             attribute: true,
@@ -226,6 +229,7 @@ pub fn run_case(p: &Program, cfg: &Config, opts: &CaseOpts, rng: &mut Rng) -> Ca
     let p2 = p.clone();
     let do_o2 = opts.o2;
     let do_o4 = opts.o4;
+    let do_tls = opts.tls_lazy;
     let do_race_iter = opts.o3_must_classes.iter().any(|c| *c == FailClass::Race);
     let dump = std::env::var("VERIF_DUMP").is_ok();
     let may = MachineCfg::may();
@@ -278,10 +282,15 @@ pub fn run_case(p: &Program, cfg: &Config, opts: &CaseOpts, rng: &mut Rng) -> Ca
                 }
                 None => {
                     c.o2_checked += 1;
-                    let v = match replay_may(&p2, h, may, false) {
+                    let mut v = match replay_may(&p2, h, may, false) {
                         Ok(a) => (None, a.race_large),
                         Err(e) => (Some(e), false),
                     };
+                    if do_tls && v.0.is_none() {
+                        if let Err(e) = check_tls_lazy(&p2, h) {
+                            v.0 = Some(e);
+                        }
+                    }
                     c.o2_cache.insert(hh, v.clone());
                     v
                 }
